@@ -11,10 +11,13 @@
     [fits ty v]: every string and slice in exported positions has fewer than 2^32 elements, and every slice
     whose element type occupies no bytes on the wire ([wire0]: struct{}, structs with only unexported fields)
     is empty;
-    [write ty v] = Writer.Write(v); [read ty bs] = Reader.Read(&x) for a variable x of type ty: its first
-    component is the outcome (value, remaining input), the second a cost meter (see C13_reflect.v);
-    [norm ty v] = v with nil slices replaced by empty slices and unexported struct fields replaced by
-    zero values. *)
+    [write ty v] = Writer.Write(v); [read tot ty (bs, el)] = Reader.Read(&x) for a variable x of type ty on a
+    Reader with len(buf) = tot, remaining input bs and el slice elements created so far (the Reader refuses to
+    create more than len(buf) slice elements in its lifetime); its first component is the outcome (value, new
+    state), the second a cost meter (see C13_reflect.v); [read0 ty bs] = the same on a fresh Reader over bs;
+    [cnt ty v] = the number of slice elements Read creates for v (elements of slices decoded reflectively, at
+    every depth); [norm ty v] = v with nil slices replaced by empty slices and unexported struct fields
+    replaced by zero values. *)
 From Coq Require Import List NArith ZArith Bool.
 From Vivid Require Import Codec.Prim Codec.PrimProofs Codec.Prim2 Codec.Prim2Proofs Codec.Reflect Codec.ReflectProofs.
 Import ListNotations.
@@ -69,8 +72,16 @@ Proof. exact (rd_varint_put z rest). Qed.
     [norm ty v]; the reader stops exactly where the writer stopped ([rest] is returned untouched). *)
 Theorem C12_reflect ty v :
   supported ty = true -> has_typeb ty v = true -> fits ty v = true ->
-  exists b, write ty v = OOk b /\ forall rest, fst (read ty (b ++ rest)) = OOk (norm ty v, rest).
+  exists b, write ty v = OOk b /\ forall rest, fst (read0 ty (b ++ rest)) = OOk (norm ty v, (rest, cnt ty v)).
 Proof. exact (roundtrip ty v). Qed.
+(** the same on a Reader in any state (e.g. in the middle of a user's reader function), provided its element
+    budget still covers the value — which it always does when everything read so far was written by Write,
+    because a value never has more counted elements than encoding bytes *)
+Theorem C12_reflect_any_reader ty v :
+  supported ty = true -> has_typeb ty v = true -> fits ty v = true ->
+  exists b, write ty v = OOk b /\ cnt ty v <= N.of_nat (length b) /\
+            forall tot rest el, el + cnt ty v <= tot -> fst (read tot ty (b ++ rest, el)) = OOk (norm ty v, (rest, el + cnt ty v)).
+Proof. exact (roundtrip_state ty v). Qed.
 (** the hypotheses are satisfiable by a nested value with an unexported field, a nil slice, a named slice,
     NaN / -0 float patterns and an array of zero-size elements (on which [norm] is not the identity) *)
 Example C12_reflect_example :
@@ -93,7 +104,7 @@ Proof. exact (write_eq_wrefl ty v). Qed.
 Theorem C12_schema l :
   forallb (fun p => supported (fst p) && has_typeb (fst p) (snd p) && fits (fst p) (snd p)) l = true ->
   exists b, write_from l = OOk b /\
-            forall rest, fst (read_into (map fst l) (b ++ rest)) = OOk (map (fun p => norm (fst p) (snd p)) l, rest).
+            forall rest, fst (read_into0 (map fst l) (b ++ rest)) = OOk (map (fun p => norm (fst p) (snd p)) l, (rest, cnt_all l)).
 Proof. exact (roundtrip_list l). Qed.
 Example C12_schema_example :
   forallb (fun p => supported (fst p) && has_typeb (fst p) (snd p) && fits (fst p) (snd p))
@@ -107,19 +118,30 @@ Proof. exact (eq_refl (wprim b v)). Qed.
 (** ** values and types EXCLUDED from the round trip, each with its witness *)
 (** a nil slice comes back as an empty non-nil slice *)
 Theorem C12_nil_slice_refuted : exists ty v b v', supported ty = true /\ has_typeb ty v = true /\ fits ty v = true /\
-  write ty v = OOk b /\ fst (read ty b) = OOk (v', []) /\ v = VNil /\ v' = VList [].
+  write ty v = OOk b /\ fst (read0 ty b) = OOk (v', ([], cnt ty v)) /\ v = VNil /\ v' = VList [].
 Proof. exact w_nil_slice. Qed.
 (** unexported struct fields are not transmitted: they come back as zero values *)
 Theorem C12_unexported_field_refuted : exists ty v b v', supported ty = true /\ has_typeb ty v = true /\ fits ty v = true /\
-  write ty v = OOk b /\ fst (read ty b) = OOk (v', []) /\ v = VStruct [VZ 5; VN 1] /\ v' = VStruct [VZ 0; VN 1].
+  write ty v = OOk b /\ fst (read0 ty b) = OOk (v', ([], cnt ty v)) /\ v = VStruct [VZ 5; VN 1] /\ v' = VStruct [VZ 0; VN 1].
 Proof. exact w_unexported. Qed.
 (** a NON-EMPTY slice of elements that occupy no bytes on the wire ([]struct{}{{}}): it is written as its
-    length only; the reader rejects a slice length above the number of remaining bytes (its defence against
-    hostile lengths), so the value reads back only when enough unrelated bytes happen to follow *)
+    length only; the reader rejects a slice length above the number of remaining bytes, and a total of more
+    than len(buf) slice elements per Reader (its defences against hostile lengths), so the value reads back
+    only when enough unrelated bytes happen to follow *)
 Theorem C12_zero_size_elements_refuted : exists ty v b, supported ty = true /\ has_typeb ty v = true /\ fits ty v = false /\
-  write ty v = OOk b /\ fst (read ty b) = OErr EEOF /\ fst (read ty (b ++ [9])) = OOk (v, [9])
+  write ty v = OOk b /\ fst (read0 ty b) = OErr EEOF /\ fst (read0 ty (b ++ [9])) = OOk (v, ([9], 1))
   /\ ty = TSlice false (TStruct []) /\ v = VList [VStruct []].
 Proof. exact w_wire0_slice. Qed.
+(** the element budget: [][]struct{} with two inner slices of three elements counts 8 elements but is written
+    in 12 bytes: not decodable from its own bytes, decodable when 3 more bytes follow *)
+Theorem C12_element_budget_refuted :
+  let ty := TSlice false (TSlice false (TStruct [])) in
+  let v := VList [VList [VStruct []; VStruct []; VStruct []]; VList [VStruct []; VStruct []; VStruct []]] in
+  write ty v = OOk [0; 0; 0; 2; 0; 0; 0; 3; 0; 0; 0; 3]
+  /\ fst (read0 ty [0; 0; 0; 2; 0; 0; 0; 3; 0; 0; 0; 3]) = OErr EEOF
+  /\ fst (read0 ty [0; 0; 0; 2; 0; 0; 0; 3; 0; 0; 0; 3; 7; 7; 7]) = OOk (v, ([7; 7; 7], 8))
+  /\ fits ty v = false /\ cnt ty v = 8.
+Proof. exact w_budget. Qed.
 (** a string or []byte of 2^32 bytes or more: the length prefix is uint32(len), the reader cannot return it *)
 Theorem C12_string_2pow32_refuted s rest : 4294967296 <= N.of_nat (length s) -> rd_string (put_string s ++ rest) <> Ok (s, rest).
 Proof. exact (string_too_long s rest). Qed.
@@ -128,10 +150,10 @@ Theorem C12_slice_length_wraps nm e l :
   wrefl (TSlice nm e) (VList l) = obind (wlist e l) (fun b => OOk (put_u32 (N.of_nat (length l) mod 4294967296) ++ b)).
 Proof. exact (wrefl_length_wraps nm e l). Qed.
 (** an array type of 2^32 or more elements is never read (the uint32 on the wire cannot equal its length) *)
-Theorem C12_array_2pow32_refuted n e bs : 4294967296 <= n -> wf_bytes bs = true -> forall v r, fst (read (TArray n e) bs) <> OOk (v, r).
-Proof. exact (array_too_long n e bs). Qed.
+Theorem C12_array_2pow32_refuted tot n e st : 4294967296 <= n -> wf_bytes (fst st) = true -> forall v r, fst (read tot (TArray n e) st) <> OOk (v, r).
+Proof. exact (array_too_long tot n e st). Qed.
 (** a pointer field is written (dereferenced) but its type cannot be read *)
-Theorem C12_pointer_field_refuted : exists ty v b, has_typeb ty v = true /\ write ty v = OOk b /\ fst (read ty b) = OErr EUnsupported
+Theorem C12_pointer_field_refuted : exists ty v b, has_typeb ty v = true /\ write ty v = OOk b /\ fst (read0 ty b) = OErr EUnsupported
   /\ ty = TStruct [(true, TPtr (TBasic BI8))] /\ v = VStruct [VPtr (VZ 5)].
 Proof. exact w_pointer_field. Qed.
 (** a nil pointer in an exported field: the writer fails *)
@@ -139,7 +161,7 @@ Theorem C12_nil_pointer_field_refuted : exists ty v, has_typeb ty v = true /\ wr
   /\ ty = TStruct [(true, TBasic BU8); (true, TPtr (TBasic BI8))] /\ v = VStruct [VN 1; VNil].
 Proof. exact w_nil_pointer_field. Qed.
 (** an interface field is written as its dynamic value but cannot be read *)
-Theorem C12_interface_field_refuted : exists ty v b, has_typeb ty v = true /\ write ty v = OOk b /\ fst (read ty b) = OErr EUnsupported
+Theorem C12_interface_field_refuted : exists ty v b, has_typeb ty v = true /\ write ty v = OOk b /\ fst (read0 ty b) = OErr EUnsupported
   /\ ty = TStruct [(true, TIface)] /\ v = VStruct [VIface (TBasic BI32) (VZ 3)].
 Proof. exact w_iface_field. Qed.
 (** a pointer to an interface is written only if the interface holds an unnamed basic value; a struct field
@@ -152,14 +174,14 @@ Proof. exact w_ptr_iface. Qed.
 (** named basic types, int, uint, map, chan, func, nil interface, nil pointers (except *[]byte, written as an
     empty slice), pointer and interface targets: rejected by writer and/or reader with an error *)
 Theorem C12_unsupported_kinds :
-  (forall b v, basic_ok b v = true -> write (TNamed b) v = OErr EUnsupported /\ forall bs, fst (read (TNamed b) bs) = OErr EUnsupported) /\
-  (forall z, write TInt (VZ z) = OErr EUnsupported /\ forall bs, fst (read TInt bs) = OErr EUnsupported) /\
-  (forall n, write TUint (VN n) = OErr EUnsupported /\ forall bs, fst (read TUint bs) = OErr EUnsupported) /\
+  (forall b v, basic_ok b v = true -> write (TNamed b) v = OErr EUnsupported /\ forall tot st, fst (read tot (TNamed b) st) = OErr EUnsupported) /\
+  (forall z, write TInt (VZ z) = OErr EUnsupported /\ forall tot st, fst (read tot TInt st) = OErr EUnsupported) /\
+  (forall n, write TUint (VN n) = OErr EUnsupported /\ forall tot st, fst (read tot TUint st) = OErr EUnsupported) /\
   (forall v, v = VNil \/ v = VOpaque -> write TMap v = OErr EUnsupported /\ write TChan v = OErr EUnsupported /\ write TFunc v = OErr EUnsupported) /\
   write TIface VNil = OErr EUnsupported /\
   (forall t, t <> TSlice false (TBasic BU8) -> write (TPtr t) VNil = OErr EInvalid) /\
   write (TPtr (TSlice false (TBasic BU8))) VNil = OOk [0; 0; 0; 0] /\
-  (forall t bs, fst (read (TPtr t) bs) = OErr EUnsupported) /\ (forall bs, fst (read TIface bs) = OErr EUnsupported).
+  (forall t tot st, fst (read tot (TPtr t) st) = OErr EUnsupported) /\ (forall tot st, fst (read tot TIface st) = OErr EUnsupported).
 Proof. exact unsupported_kinds. Qed.
 (** 1- and 2-byte length prefixes: longer data is refused by the writer; other sizes are refused by both *)
 Theorem C12_length_prefix_too_long k b : 256 ^ N.of_nat k <= N.of_nat (length b) -> put_lp k b = Err ETooLarge.
@@ -168,7 +190,7 @@ Theorem C12_length_size_invalid size b bs : size <> 1%Z -> size <> 2%Z -> size <
   put_lpk size b = Err EInvalid /\ rd_lpk size bs = Err EInvalid.
 Proof. exact (fun H1 H2 H4 => conj (put_lpk_invalid size b H1 H2 H4) (rd_lpk_invalid size bs H1 H2 H4)). Qed.
 (** the reader accepts encodings the writer never produces: any non-zero byte is true; non-minimal uvarints *)
-Theorem C12_noncanonical_accepted : fst (read (TBasic BBool) [2]) = OOk (VB true, []) /\ rd_uvarint [128; 0] = Ok (0, []) /\ put_uvarint 0 = [0].
+Theorem C12_noncanonical_accepted : fst (read0 (TBasic BBool) [2]) = OOk (VB true, ([], 0)) /\ rd_uvarint [128; 0] = Ok (0, []) /\ put_uvarint 0 = [0].
 Proof. exact w_noncanonical. Qed.
 
 Print Assumptions C12_prim_uint8.
@@ -190,6 +212,7 @@ Print Assumptions C12_prim_uvarint.
 Print Assumptions C12_prim_uvarint_length.
 Print Assumptions C12_prim_varint.
 Print Assumptions C12_reflect.
+Print Assumptions C12_reflect_any_reader.
 Print Assumptions C12_reflect_exact.
 Print Assumptions C12_write_is_writeReflect.
 Print Assumptions C12_schema.
@@ -197,6 +220,7 @@ Print Assumptions C12_write_pointer.
 Print Assumptions C12_nil_slice_refuted.
 Print Assumptions C12_unexported_field_refuted.
 Print Assumptions C12_zero_size_elements_refuted.
+Print Assumptions C12_element_budget_refuted.
 Print Assumptions C12_string_2pow32_refuted.
 Print Assumptions C12_slice_length_wraps.
 Print Assumptions C12_array_2pow32_refuted.
